@@ -25,7 +25,8 @@ Inductive form :=
 | FImport (l : list (Z * Z))        (* require M import [a as b, ...] *)
 | FUnqual.                          (* require M unqualified *)
 
-Inductive mstmt := MDef (x v : Z) | MReq (f : form) (m : Z) | MFail | MLog.
+(* MTry f m x:  def x = do require m ...; 1 catch all 0 end   (a require whose failure the module handles itself) *)
+Inductive mstmt := MDef (x v : Z) | MReq (f : form) (m : Z) | MFail | MLog | MTry (f : form) (m x : Z).
 Record moddef := mk_mod { m_parses : bool; m_body : list mstmt }.
 Definition program := list (Z * moddef).      (* the module files on the module path *)
 
@@ -79,6 +80,13 @@ Fixpoint run_body (rq : gstate -> Z -> gstate * res env) (m : Z) (stmts : list m
     match rq g m2 with
     | (g', ROk menv2) => run_body rq m r g' (bind f m2 menv2 menv)
     | (g', RErr e) => (g', RErr e)
+    | (g', RFuel) => (g', RFuel)
+    end
+  | MTry f m2 x :: r =>
+    match rq g m2 with
+    | (g', ROk menv2) => run_body rq m r g' (put x (SInt 1) (bind f m2 menv2 menv))
+    | (g', RErr e) => if e =? 7 then (g', RErr e)           (* a syntax error in the required file passes every handler *)
+                      else run_body rq m r g' (put x (SInt 0) menv)
     | (g', RFuel) => (g', RFuel)
     end
   end.
